@@ -2,7 +2,7 @@
     [wf_seg seg = true] is the executable form of "no empty cluster and no cluster
     mixes whitespace with non-whitespace" ([wf_seg_iff]); code-point mode is the
     segmentation [singletons s], for which it always holds. *)
-From TU Require Import Base C11_Model C11_Proofs C11_Link.
+From TU Require Import Base UAX29_Model C11_Model C11_Proofs C11_Link C11_UAX29.
 From TU Require C10_Model C10_Proofs.
 
 (** ** hypotheses *)
@@ -152,6 +152,86 @@ Theorem check_sound : forall v out,
 Proof. exact check_sound_l. Qed.
 Print Assumptions check_sound.
 
+
+(** ** grapheme mode with the segmenter inside the model: the theorems above instantiated with
+    [segment s] (UAX29_Model.v, tied to unicode-segmentation by this property's correspondence).
+    No segmentation premise is left; "no cluster mixes whitespace and non-whitespace" is the
+    decidable [no_mixedb s]. *)
+Theorem segment_valid : forall s, ValidSeg (segment s) s.
+Proof. exact segment_valid_l. Qed.
+Print Assumptions segment_valid.
+
+Theorem no_mixedb_NoMixed : forall s, no_mixedb s = true <-> NoMixed (segment s).
+Proof. exact no_mixedb_NoMixed_l. Qed.
+Print Assumptions no_mixedb_NoMixed.
+
+Theorem wf_seg_segment_eq : forall s, wf_seg (segment s) = no_mixedb s.
+Proof. exact wf_seg_segment. Qed.
+Print Assumptions wf_seg_segment_eq.
+
+Theorem clean_spec_u : forall s, no_mixedb s = true -> clean (segment s) = join [32%N] (words s).
+Proof. exact clean_spec_u_l. Qed.
+Print Assumptions clean_spec_u.
+
+Theorem clean_clean_u : forall s, no_mixedb s = true -> cleansb (clean (segment s)) = true.
+Proof. exact clean_clean_u_l. Qed.
+Print Assumptions clean_clean_u.
+
+Theorem clean_nonws_u : forall s, strip_cps (clean (segment s)) = strip_cps s.
+Proof. exact clean_nonws_u_l. Qed.
+Print Assumptions clean_nonws_u.
+
+(** idempotence: the second premise is exactly what fails on the KF1 class ... *)
+Theorem clean_idem_u : forall s,
+  no_mixedb s = true -> no_mixedb (clean (segment s)) = true ->
+  clean (segment (clean (segment s))) = clean (segment s).
+Proof. exact clean_idem_u_l. Qed.
+Print Assumptions clean_idem_u.
+
+(** ... and it follows from a condition on the words of the text alone: no word but the last
+    ends in a Prepend, no word but the first starts with Extend / SpacingMark / ZWJ
+    ([seam_free]); then the spaces that [clean] writes stay clusters of their own *)
+Theorem clean_no_mixed : forall s,
+  no_mixedb s = true -> seam_free s = true -> no_mixedb (clean (segment s)) = true.
+Proof. exact clean_no_mixed_l. Qed.
+Print Assumptions clean_no_mixed.
+
+Theorem clean_idem_seam : forall s,
+  no_mixedb s = true -> seam_free s = true ->
+  clean (segment (clean (segment s))) = clean (segment s).
+Proof. exact clean_idem_seam_l. Qed.
+Print Assumptions clean_idem_seam.
+
+Theorem segment_clean : forall s,
+  no_mixedb s = true -> seam_free s = true ->
+  segment (clean (segment s)) = join [[32%N]] (map segment (words s)).
+Proof. exact segment_clean_l. Qed.
+Print Assumptions segment_clean.
+
+Theorem clean_clean_C10_u : forall s,
+  no_mixedb s = true -> no_mixedb (clean (segment s)) = true ->
+  C10_Proofs.Clean (segment (clean (segment s))).
+Proof. exact clean_Clean_u_l. Qed.
+Print Assumptions clean_clean_C10_u.
+
+Theorem wb_words_u : forall s,
+  no_mixedb s = true ->
+  map (fun r => concat (sub (segment s) r)) (word_boundaries (segment s)) = words s.
+Proof. exact wb_words_u_l. Qed.
+Print Assumptions wb_words_u.
+
+Theorem remove_spec_u : forall s, no_mixedb s = true -> remove (segment s) = strip_cps s.
+Proof. exact remove_spec_u_l. Qed.
+Print Assumptions remove_spec_u.
+
+(** the input the harness builds for a text in grapheme mode — both cluster lists computed by
+    the model itself — passes the executable statement and the segmentation clause of [agree] *)
+Theorem check_run_u : forall s,
+  (no_mixedb s = true -> no_mixedb (clean (segment s)) = true) ->
+  check_C11 (input_of s) (run_C11 (input_of s)) = true /\ uax29_agree (input_of s) = true.
+Proof. exact check_run_u_l. Qed.
+Print Assumptions check_run_u.
+
 (** ** non-vacuity *)
 (** a grapheme segmentation with CRLF and a combining sequence: "a\r\n e\u{301}" *)
 Example wf_seg_witness : wf_seg [[97];[13;10];[32];[101;769]]%N = true.
@@ -168,3 +248,12 @@ Example clean_example :
   clean (singletons [32;32;116;9;32;105;10]%N) = [116;32;105]%N
   /\ word_boundaries (singletons [32;32;116;9;32;105;10]%N) = [(2,3);(5,6)]%nat.
 Proof. vm_compute. split; reflexivity. Qed.
+(** "a\r\n e\u{301} b": no mixed cluster, seam-free; "a\n\u{301}" (KF1): no mixed cluster, not seam-free,
+    and the cleaned text "a \u{301}" has a mixed cluster *)
+Example seam_free_witness :
+  no_mixedb [97;13;10;32;101;769;32;98]%N = true /\ seam_free [97;13;10;32;101;769;32;98]%N = true.
+Proof. vm_compute. split; reflexivity. Qed.
+Example kf1_not_seam_free :
+  no_mixedb [97;10;769]%N = true /\ seam_free [97;10;769]%N = false
+  /\ no_mixedb (clean (segment [97;10;769]%N)) = false.
+Proof. vm_compute. repeat split; reflexivity. Qed.
